@@ -3,7 +3,7 @@ CONSTANTS
   Vms = {"v1", "v2"}
   Caches = {"c1"}
   NProg = 2
-  RetryWithAll = FALSE
+  RetryWithAll = TRUE
 INVARIANT NoWX
 INVARIANT NoFault
 INVARIANT RestsExecutable
